@@ -114,6 +114,17 @@ class Pixel:  # noqa: R0902
             if isinstance(n, ast.Name) and n.id in (self.n_row, self.row):
                 self.check_row_use(n)
         self.text = None
+        # the `if` whose body calls `method(...)` (its test is the guard T11 / T12 name), and the local bound by `int(...)` first
+        self.guard_test, self.guard_kind, self.index_local = None, None, None
+        for n in (x for st in self.body for x in ast.walk(st)):
+            if isinstance(n, ast.If) and any(isinstance(b, ast.Assign) and isinstance(b.value, ast.Call)
+                                             and src(b.value.func) == "method" for b in n.body):
+                self.guard_test = n.test
+                names = {m.id for m in ast.walk(n.test) if isinstance(m, ast.Name)}
+                self.guard_kind = "index" if self.n_disp in names else ("value" if "d_min" in names else None)
+            if self.index_local is None and isinstance(n, ast.Assign) and isinstance(n.targets[0], ast.Name) \
+                    and isinstance(n.value, ast.Call) and src(n.value.func) == "int":
+                self.index_local = n.targets[0].id
 
     def check_row_use(self, _):
         """`row` / `n_row` may only occur as the first subscript of an array: verified in `subscript`/`store`"""
